@@ -63,6 +63,7 @@ typedef struct {
   uint32_t pct_depth;      // PCT: number of priority change points
   uint64_t pct_span;       // PCT: change points drawn in [0,pct_span)
   uint64_t max_steps;      // budget of yield points; exceeding it ends the run with status "budget"
+  uint64_t max_switches;   // budget of context switches (each costs a futex hand-off); then the run finishes serially
   const uint64_t* replay_steps;  // replay policy: at step replay_steps[i] switch to replay_tasks[i]
   const int* replay_tasks;
   uint32_t replay_n;
